@@ -41,7 +41,7 @@ Plain(k, ind, sid) == Ln(k, ind, sid, 0, FALSE, FALSE, FALSE, FALSE, FALSE, 0, F
 (* Building blocks -> lines *)
 
 \* shapes of a statement block
-Len1  == {"one", "expr", "semi", "cmt", "badone", "star"}     \* star: "from m import *" (dropped by the dump command)
+Len1  == {"one", "expr", "semi", "cmt", "badone", "star", "asg", "echo", "prn", "exc"}     \* star: "from m import *" (dropped by the dump command)
 ShapeLen(s)  == CASE s \in Len1 -> 1
                   [] s \in {"ml2", "mlx2", "cmp2", "trunc2", "pair2"} -> 2
                   [] OTHER -> 3                               \* ml3 tri3 cmp3 deco3 braw3
@@ -49,13 +49,13 @@ ShapeCont(s) == CASE s \in {"ml2", "mlx2"} -> 1
                   [] s \in {"ml3", "tri3", "braw3"} -> 2
                   [] s = "trunc2" -> 99                       \* never balanced
                   [] OTHER -> 0
-ShapeExpr(s) == s \in {"expr", "semi", "mlx2"}
+ShapeExpr(s) == s \in {"expr", "semi", "mlx2", "echo", "prn", "exc"}
 InnerKind(s, style) == IF s \in {"tri3", "braw3"} THEN "raw" ELSE IF style = "a" THEN "p1" ELSE "p2"
 
 \* lines of the statement block b with ghost id
 StmtLines(b, id) ==
   LET n == ShapeLen(b.shape)
-      dirAt == IF b.dir = "none" THEN 0 ELSE IF b.dir = "first" THEN 1 ELSE n
+      dirAt == IF b.dir = "none" THEN 0 ELSE IF b.dir \in {"first", "opt", "neg"} THEN 1 ELSE n
       body == [j \in 1..n |->
                 IF j = 1
                 THEN Ln("p1", b.ind, id, ShapeCont(b.shape), b.shape = "tri3", TRUE, ShapeExpr(b.shape), b.shape = "semi",
@@ -69,6 +69,7 @@ Expand(b, id) ==
   CASE b.t = "blank" -> <<Plain("blank", 0, 0)>>
     [] b.t = "text"  -> [j \in 1..b.n |-> Plain("text", b.ind, 0)]
     [] b.t = "bare"  -> <<Plain("bare", b.ind, 0)>>
+    [] b.t = "ex"    -> StmtLines(b, id) \o [j \in 1..b.n |-> Plain("text", b.ind, 0)]      \* an example with its want (C20)
     [] b.t = "p2txt" -> <<Ln("p2", b.ind, 0, 0, FALSE, FALSE, FALSE, FALSE, FALSE, 0, TRUE)>>   \* "... text": prose, not Python
     [] OTHER         -> StmtLines(b, id)
 
@@ -145,10 +146,10 @@ RECURSIVE RunSetDeclFrom(_, _, _)
 RunSetDeclFrom(bs, x, skipping) ==
   IF x > Len(bs) THEN <<>>
   ELSE LET b == bs[x] IN
-       IF b.t # "stmt" THEN RunSetDeclFrom(bs, x + 1, skipping)
+       IF b.t \notin {"stmt", "ex"} THEN RunSetDeclFrom(bs, x + 1, skipping)
        ELSE IF b.shape = "cmt"
             THEN RunSetDeclFrom(bs, x + 1, IF b.dir = "first" THEN TRUE ELSE IF b.dir = "neg" THEN FALSE ELSE skipping)
-            ELSE (IF ~skipping /\ b.dir = "none" THEN <<x>> ELSE <<>>) \o RunSetDeclFrom(bs, x + 1, skipping)
+            ELSE (IF ~skipping /\ b.dir \in {"none", "opt"} THEN <<x>> ELSE <<>>) \o RunSetDeclFrom(bs, x + 1, skipping)   \* "opt": a directive other than SKIP
 RunSetDecl(bs) == RunSetDeclFrom(bs, 1, FALSE)
 
 \* Operational: the run loop over the packaged parts (directive update, skip test, has_any_code)
@@ -158,8 +159,9 @@ RunSetOpFrom(ps, x, gskip) ==
   ELSE LET p == ps[x] IN
        IF p.t # "code" THEN RunSetOpFrom(ps, x + 1, gskip)
        ELSE LET neg == blocks[lines[p.a].sid].dir = "neg"
-                g2 == IF p.ndir > 0 /\ ~p.inl THEN ~neg ELSE gskip
-                local == IF p.ndir > 0 /\ p.inl THEN ~neg ELSE g2
+                isopt == blocks[lines[p.a].sid].dir = "opt"
+                g2 == IF p.ndir > 0 /\ ~p.inl /\ ~isopt THEN ~neg ELSE gskip
+                local == IF p.ndir > 0 /\ p.inl /\ ~isopt THEN ~neg ELSE g2
                 hascode == \E j \in p.a..p.b : ~lines[j].cmt
                 sids == SetToSortSeq({lines[j].sid : j \in {j2 \in p.a..p.b : lines[j2].first /\ ~lines[j2].cmt}}, <)
             IN (IF ~local /\ hascode THEN sids ELSE <<>>) \o RunSetOpFrom(ps, x + 1, g2)
@@ -374,6 +376,29 @@ NoSpuriousError == (pc = "done" /\ WellFormed /\ err # "none") =>
 
 \* C01/C04: the statements that run are exactly the ones no directive disables, each once, in order
 RunSetAgrees == (Done /\ WellFormed) => RunSetOpFrom(parts, 1, FALSE) = RunSetDecl(blocks)
+
+\* C20: a doctest in standard syntax whose wants are what the REPL prints (stdout followed by the echoed value)
+\* passes here as well.  The value of an expression can be compared only together with its stdout when the part is
+\* compiled in single mode (REPL echo); in eval mode stdout and value are separate candidates, so an example that
+\* both prints and returns a value (shape "expr"/"mlx2") on a part in eval mode cannot match "stdout + repr":
+\* known finding F6.
+PrintAndValue(sh) == sh \in {"expr", "mlx2"}
+F6Part(p) == p.t = "code" /\ p.wb >= p.wa /\ p.mode = "eval" /\
+             \E j \in p.a..p.b : lines[j].first /\ lines[j].sid > 0 /\ PrintAndValue(blocks[lines[j].sid].shape)
+HasF6 == \E x \in 1..Len(parts) : F6Part(parts[x])
+\* every example with a want has its own part whose last statement is the example's (so that the want is compared with
+\* this example's output), and a value is echoed exactly when the standard module echoes it
+\* prose directly under an example would be part of its want for the standard module too: such docstrings do not pass there
+StdAccepts == \A x \in 1..Len(blocks) : blocks[x].t = "text" => (x = 1 \/ blocks[x-1].t = "blank")
+StdCompat == (Done /\ WellFormed /\ round = 1 /\ "StdSyntax" \in Deviation /\ StdAccepts) =>
+  /\ ("AllowF6" \in Deviation \/ ~HasF6 \/ \E x \in 1..Len(blocks) : blocks[x].t = "ex" /\ blocks[x].shape = "expr" /\ blocks[x].n > 0)
+  /\ \A x \in 1..Len(parts) : (parts[x].t = "code" /\ parts[x].wb >= parts[x].wa) =>
+        LET F == {j \in parts[x].a..parts[x].b : lines[j].first}
+            last == CHOOSE j \in F : \A j2 \in F : j2 <= j
+        IN \* the want belongs to the example directly above it
+           /\ blocks[lines[last].sid].t = "ex" /\ blocks[lines[last].sid].n = parts[x].wb - parts[x].wa + 1
+           \* value echoed (eval or single) iff the example is an expression
+           /\ (lines[last].expr => parts[x].mode \in {"eval", "single"})
 
 \* C18: the formatted source parses to the same executable lines, wants and evaluation modes.
 \* A line is identified by what it is (block id, place in its statement), not by where it stands.
